@@ -1311,7 +1311,39 @@ func runWmPublish(c *Ctx, r *RuleRun) {
 			return
 		}
 		bi, ok := call.Call.Value.(*ssa.Builtin)
-		if !ok || bi.Name() != "close" {
+		if !ok {
+			// a helper of the package that releases waiters and is handed the new value
+			g := call.Call.StaticCallee()
+			if g == nil || !p.InModule(g) || g.Pkg != f.Pkg {
+				return
+			}
+			closes := p.FuncMayDo(g, func(i ssa.Instruction) bool {
+				cc, ok := i.(*ssa.Call)
+				if !ok {
+					return false
+				}
+				b2, ok := cc.Call.Value.(*ssa.Builtin)
+				if !ok || b2.Name() != "close" {
+					return false
+				}
+				fv, _ := loadedField(cc.Call.Args[0])
+				return fv != a.fMarkC
+			})
+			if !closes {
+				return
+			}
+			for _, st := range stores {
+				for _, arg := range call.Call.Args {
+					if arg == st.Call.Args[1] {
+						n++
+						r.Check(dominatesInstr(st, call), fn, "store before releasing waiters", p.Pos(instrPos(call)), "doneUntil.Store precedes the call that releases the waiters",
+							"waiters are released before the new value of doneUntil is stored: WaitForMark returns nil although DoneUntil() still reads below its index")
+					}
+				}
+			}
+			return
+		}
+		if bi.Name() != "close" {
 			return
 		}
 		if fv, _ := loadedField(call.Call.Args[0]); fv == a.fMarkC {
